@@ -264,8 +264,10 @@ def run(ctx):
             R.step_ratio, R.step, R.order, R.num_terms = rho_arg, step, order, nt
         else:
             R = Richardson(step_ratio=rho_arg, step=step, order=order, num_terms=nt)
+        # the documented alias `extrapolate` is the same operation as the call
+        entry = 'extrapolate' if (hasattr(R, 'extrapolate') and rng.random() < 0.4) else '__call__'
         try:
-            new, abserr, st = R(seq, steps)
+            new, abserr, st = getattr(R, entry)(seq, steps)
             w = R.rule(length)
         except Exception as ex_:
             ctx.tried(key)
@@ -273,7 +275,8 @@ def run(ctx):
             continue
         ctx.tried(key if used > 0 else None)
         rep = dict(rho=str(rho), rho_type=type(rho_arg).__name__, step=step, order=order, num_terms=nt, length=length, ncols=ncols,
-                   L=[str(x) for x in Ls], a=[[str(x) for x in a] for a in As], h0=str(h0), object_reconfigured=reused)
+                   L=[str(x) for x in Ls], a=[[str(x) for x in a] for a in As], h0=str(h0), object_reconfigured=reused,
+                   entry_point=entry, steps_sign=sgn)
         ctx.keep('Richardson', new, **rep)
         if not cplx and rng.random() < 0.25:
             # the dtype of the sequence is not part of its value: the same whole numbers as an integer array (or the same values as
